@@ -1,10 +1,11 @@
 (** C03 - List, set and hash commands follow the Redis reference semantics.
-    Statements only; proofs are in Proofs/ListsFacts.v.  The model (Model/Lists.v)
-    mirrors commands/lists.rs, sets.rs, hashes.rs and the engine.rs functions
-    lpush .. hincrby of the unchanged tree; the declarative reference semantics is
-    Spec/Collections.v.  Where the code deviates from the reference semantics the
-    theorem carries a decidable hypothesis excluding exactly that class of inputs
-    and a [..._refuted] theorem exhibits a witness inside the class. *)
+    Statements only; proofs are in Proofs/ListsFacts.v and Proofs/MixedFacts.v.  The model
+    (Model/Lists.v) mirrors commands/lists.rs, sets.rs, hashes.rs and the engine.rs
+    functions lpush .. hincrby after the repairs c5f1b6a, 61742d6, 2b792ef, 6f35e51,
+    eab489c, 84546fc; the declarative reference semantics is Spec/Collections.v.
+    The classes those commits repaired (known_findings.json, status fixed) used to be
+    excluded by hypotheses; the theorems now hold at full strength, and the former
+    witnesses are kept as regression Examples. *)
 From Ferrous Require Import Base.Bytes Model.Resp Model.Types Model.Strings Model.Lists
   Spec.Collections Proofs.BytesFacts Proofs.ListsFacts Proofs.MixedFacts.
 From Ferrous Require Proofs.StringsFacts.
@@ -12,51 +13,32 @@ Open Scope Z_scope.
 
 (** ---------------------------------------------------------------- index forms *)
 
-(** LRANGE / LTRIM window: for ALL lists, starts and stops outside the class
-    [lrange_known] (non-empty list, stop < -len, start normalising to 0) the window the
-    code computes is the window of the Redis rule. *)
+(** LRANGE / LTRIM window: for ALL lists, starts and stops (negative, zero, past either
+    end, stop before the head) the window the code computes is the window of the Redis rule. *)
 Theorem c03_range_normalisation :
-  forall l start stop, lrange_known (len l) start stop = false ->
-  list_slice l start stop = redis_range l start stop.
+  forall l start stop, list_slice l start stop = redis_range l start stop.
 Proof. exact list_slice_spec. Qed.
-
-(** Inside the class the code answers / keeps the head element where Redis gives nothing
-    (F-03a); this describes the deviation exactly, for all inputs of the class. *)
-Theorem c03_range_known_class_exact :
-  forall l start stop, lrange_known (len l) start stop = true ->
-  list_slice l start stop = firstn 1 l /\ redis_range l start stop = [] /\ firstn 1 l <> [].
-Proof. exact list_slice_known. Qed.
-
-Theorem c03_range_refuted :
-  exists l start stop,
-  lrange_known (len l) start stop = true /\ list_slice l start stop <> redis_range l start stop.
-Proof. exact lrange_refuted. Qed.
-
-(** the same witness as a command history of the model (and of the real server:
-    known_findings.json class lrange-stop-underflow) *)
-Example c03_lrange_refuted_history :
-  replies [["RPUSH"; "l"; "a"; "b"; "c"]; ["LRANGE"; "l"; "0"; "-100"]; ["LRANGE"; "l"; "-100"; "-50"]]%string
-  = [FInt 3; FArray [b "a"]; FArray [b "a"]].
-Proof. exact lrange_refuted_history. Qed.
-Example c03_ltrim_refuted_history :
-  replies [["RPUSH"; "l"; "a"; "b"; "c"]; ["LTRIM"; "l"; "0"; "-100"]; ["LRANGE"; "l"; "0"; "-1"]]%string
-  = [FInt 3; r_ok; FArray [b "a"]].
-Proof. exact ltrim_refuted_history. Qed.
 
 (** the same at the level of the engine functions: LRANGE answers the Redis window, LTRIM
     keeps it and removes the key when it is empty *)
 Theorem c03_lrange_reply :
-  forall l start stop, lrange_known (len l) start stop = false ->
+  forall l start stop,
   e_lrange start stop (Some (VList l)) = (r_bulks (redis_range l start stop), Keep).
 Proof. exact lrange_reply_spec. Qed.
 Theorem c03_ltrim_spec :
-  forall l start stop, lrange_known (len l) start stop = false ->
+  forall l start stop,
   e_ltrim start stop (Some (VList l)) =
   (r_ok, match redis_range l start stop with [] => Del | l' => Put (VList l') end).
 Proof. exact ltrim_spec. Qed.
 (** LRANGE k 0 -1 returns the whole list in order (the read used by the dataset dumps) *)
 Theorem c03_lrange_whole : forall l, list_slice l 0 (-1) = l.
 Proof. exact list_slice_all. Qed.
+(** regression witness of 2b792ef (a stop below -len used to be clamped to the head) *)
+Example c03_lrange_fixed_history :
+  replies [["RPUSH"; "l"; "a"; "b"; "c"]; ["LRANGE"; "l"; "0"; "-100"]; ["LRANGE"; "l"; "-100"; "-50"];
+           ["LTRIM"; "l"; "0"; "-100"]; ["LRANGE"; "l"; "0"; "-1"]; ["LLEN"; "l"]]%string
+  = [FInt 3; FArray []; FArray []; r_ok; FArray []; FInt 0].
+Proof. exact lrange_fixed_history. Qed.
 
 (** LINDEX addressing equals the Redis rule for every list and every index
     (negative, zero, past either end). *)
@@ -74,33 +56,36 @@ Proof. exact lset_lindex. Qed.
 
 (** ---------------------------------------------------------------- LREM, all counts *)
 
-Theorem c03_lrem_zero : forall x l, list_rem 0 x l = Some (without x l, occ x l).
+Theorem c03_lrem_zero : forall x l, list_rem 0 x l = (without x l, occ x l).
 Proof. exact list_rem_zero. Qed.
 
 (** count > 0: the first min(count, occurrences) occurrences, counted from the head, go *)
 Theorem c03_lrem_positive :
   forall c x l, 0 < c ->
-  exists r k, list_rem c x l = Some (r, k) /\ k = Z.min c (occ x l) /\ removed_prefix l x k r.
+  exists r k, list_rem c x l = (r, k) /\ k = Z.min c (occ x l) /\ removed_prefix l x k r.
 Proof. exact list_rem_pos. Qed.
 
-(** count < 0 (above isize::MIN): the last min(-count, occurrences), counted from the tail *)
+(** count < 0, isize::MIN included: the last min(-count, occurrences), counted from the tail *)
 Theorem c03_lrem_negative :
-  forall c x l, c < 0 -> c <> isize_min ->
-  exists r k, list_rem c x l = Some (r, k) /\ k = Z.min (- c) (occ x l) /\ removed_suffix l x k r.
+  forall c x l, c < 0 ->
+  exists r k, list_rem c x l = (r, k) /\ k = Z.min (- c) (occ x l) /\ removed_suffix l x k r.
 Proof. exact list_rem_neg. Qed.
 
-(** count = isize::MIN: the negation overflows, the server process dies (F-06g) *)
-Theorem c03_lrem_min_refuted : forall x l, e_lrem isize_min x (Some (VList l)) = (PANIC, Keep).
-Proof. exact lrem_min_panics. Qed.
-Example c03_lrem_refuted_history :
-  replies [["RPUSH"; "l"; "a"]; ["LREM"; "l"; "-9223372036854775808"; "a"]]%string = [FInt 1; PANIC].
-Proof. exact lrem_refuted_history. Qed.
+(** hence LREM always answers the number removed and stores the rest (or removes the key) *)
+Theorem c03_lrem_total :
+  forall c x l, exists l' k, list_rem c x l = (l', k) /\
+  e_lrem c x (Some (VList l)) = (r_int k, match l' with [] => Del | _ => Put (VList l') end).
+Proof. exact lrem_total. Qed.
+Example c03_lrem_min_fixed_history :
+  replies [["RPUSH"; "l"; "a"; "b"; "a"]; ["LREM"; "l"; "-9223372036854775808"; "a"]; ["LRANGE"; "l"; "0"; "-1"]]%string
+  = [FInt 3; FInt 2; FArray [b "b"]].
+Proof. exact lrem_min_fixed_history. Qed.
 
 (** ---------------------------------------------------------------- failure atomicity *)
 
 (** Every command of the family, in every database, with every argument list and oracle:
     an error reply (wrong type, index out of range, non-integer field, arity, malformed
-    argument, inadmissible oracle, PANIC) leaves the database exactly as it was. *)
+    argument, overflow, inadmissible oracle) leaves the database exactly as it was. *)
 Theorem c03_failure_atomic :
   forall now d name parts oracle r d',
   exec_lists now d name parts oracle = Some (r, d') -> is_error r = true -> d' = d.
@@ -191,26 +176,24 @@ Theorem c03_sdiff_spec :
             forall m, In m r <-> in_some d [k] m /\ in_none d ks m.
 Proof. exact sdiff_spec. Qed.
 
-(** refusal of keys of another type: always for SUNION; for SINTER when no key is
-    missing; for SDIFF when the first key exists *)
+(** a key of another type anywhere in the command is refused, whatever the other keys are *)
 Theorem c03_sunion_wrongtype :
   forall d keys, (exists k, In k keys /\ set_at d k = None) -> eng_sunion d keys = SWrong.
 Proof. exact sunion_wrong. Qed.
 Theorem c03_sinter_wrongtype :
-  forall d keys, none_missing d keys -> (exists k, In k keys /\ set_at d k = None) ->
-  eng_sinter d keys = SWrong.
+  forall d keys, (exists k, In k keys /\ set_at d k = None) -> eng_sinter d keys = SWrong.
 Proof. exact sinter_wrong. Qed.
 Theorem c03_sdiff_wrongtype :
-  forall d k ks, get_val d k <> None -> (exists k0, In k0 (k :: ks) /\ set_at d k0 = None) ->
-  eng_sdiff d (k :: ks) = SWrong.
+  forall d keys, (exists k, In k keys /\ set_at d k = None) -> eng_sdiff d keys = SWrong.
 Proof. exact sdiff_wrong. Qed.
-(** outside those hypotheses the early return skips the type check: SDIFF / SINTER answer
-    an empty array although a later key holds a list (class setalg-type-skipped) *)
-Example c03_setalg_type_skipped_refuted :
+(** regression witness of eab489c (a missing key used to end SINTER / SDIFF before the type check) *)
+Example c03_setalg_type_checked_history :
   replies [["SADD"; "s"; "a"]; ["LPUSH"; "str"; "x"]; ["SDIFF"; "nokey"; "str"]; ["SINTER"; "nokey"; "str"];
-           ["SINTER"; "s"; "nokey"; "str"]; ["SDIFF"; "s"; "str"]; ["SUNION"; "nokey"; "str"]]%string
-  = [FInt 1; FInt 1; FArray []; FArray []; FArray []; r_wrongtype; r_wrongtype].
-Proof. exact setalg_type_skipped_history. Qed.
+           ["SINTER"; "s"; "nokey"; "str"]; ["SDIFF"; "s"; "str"]; ["SUNION"; "nokey"; "str"];
+           ["SINTER"; "s"; "nokey"]; ["SDIFF"; "nokey"; "s"]; ["SDIFF"; "s"; "nokey"]]%string
+  = [FInt 1; FInt 1; r_wrongtype; r_wrongtype; r_wrongtype; r_wrongtype; r_wrongtype;
+     FArray []; FArray []; FArray [b "a"]].
+Proof. exact setalg_type_checked_history. Qed.
 
 (** ---------------------------------------------------------------- random picks *)
 
@@ -256,19 +239,17 @@ Theorem c03_srandmember_every_admissible_choice :
   forall n s xs, s <> [] -> incl xs s ->
   (0 <= n -> len xs = Z.min n (len s) -> NoDup xs ->
    e_srandmember (Some n) (Some (FArray (map FBulk xs))) (Some (VSet s)) = (r_bulks (bsort xs), Keep)) /\
-  (srand_neg_ok n = true -> len xs = - n ->
+  (n < 0 -> n <> i64_min -> len xs = - n ->
    e_srandmember (Some n) (Some (FArray (map FBulk xs))) (Some (VSet s)) = (r_bulks (bsort xs), Keep)).
 Proof. exact srandmember_every_choice. Qed.
-(** negative counts outside [srand_neg_ok] (i64::MIN: negation; 24 * -count > isize::MAX:
-    Vec::with_capacity) kill the server (F-06h) *)
-Theorem c03_srandmember_refuted :
-  forall n oracle s, s <> [] -> n < 0 -> srand_neg_ok n = false ->
-  e_srandmember (Some n) oracle (Some (VSet s)) = (PANIC, Keep).
-Proof. exact srandmember_panics. Qed.
-Example c03_srandmember_refuted_history :
-  replies [["SADD"; "s"; "a"]; ["SRANDMEMBER"; "s"; "-9223372036854775808"];
-           ["SRANDMEMBER"; "s"; "-384307168202282326"]]%string = [FInt 1; PANIC; PANIC].
-Proof. exact srandmember_refuted_history. Qed.
+(** count = i64::MIN (whose negation does not exist) is refused, as Redis does *)
+Theorem c03_srandmember_min_refused :
+  forall oracle s, s <> [] -> e_srandmember (Some i64_min) oracle (Some (VSet s)) = (r_err, Keep).
+Proof. exact srandmember_min_refused. Qed.
+Example c03_srandmember_min_fixed_history :
+  replies [["SADD"; "s"; "a"]; ["SRANDMEMBER"; "s"; "-9223372036854775808"]; ["SCARD"; "s"]]%string
+  = [FInt 1; r_err; FInt 1].
+Proof. exact srandmember_min_fixed_history. Qed.
 
 (** ---------------------------------------------------------------- hashes *)
 
@@ -284,48 +265,49 @@ Theorem c03_hset_count_existing :
   forall ps h a h' a', NoDup (map fst h) -> hset_loop h ps a = (h', a') -> a' - a = len h' - len h.
 Proof. exact hset_loop_count. Qed.
 
-(** on a fresh key the answer is the number of pairs: right exactly when no field repeats *)
+(** on a fresh key too: the count answered is the number of fields the new hash holds
+    (= the counter of new fields; = the number of pairs when no field repeats) *)
 Theorem c03_hset_count_fresh :
-  forall ps, hset_fresh_dup ps = false -> len (fst (hset_loop [] ps 0)) = len ps.
-Proof. exact hset_count_fresh. Qed.
-Theorem c03_hset_fresh_refuted :
-  exists ps, hset_fresh_dup ps = true /\
-  exists n h, e_hset false ps None = (FInt n, Put (VHash h)) /\ n <> len h.
-Proof. exact hset_fresh_refuted. Qed.
-Example c03_hset_fresh_refuted_history :
-  replies [["HSET"; "hh"; "f"; "1"; "f"; "2"]; ["HLEN"; "hh"]]%string = [FInt 2; FInt 1].
-Proof. exact hset_fresh_refuted_history. Qed.
+  forall ps, exists h', e_hset false ps None = (r_int (len h'), Put (VHash h')) /\
+                        h' = fst (hset_loop [] ps 0) /\ snd (hset_loop [] ps 0) = len h'.
+Proof. exact hset_fresh_count. Qed.
+Theorem c03_hset_count_fresh_distinct :
+  forall ps, NoDup (map fst ps) -> len (fst (hset_loop [] ps 0)) = len ps.
+Proof. exact hset_count_fresh_nodup. Qed.
+Example c03_hset_fresh_fixed_history :
+  replies [["HSET"; "hh"; "f"; "1"; "f"; "2"]; ["HLEN"; "hh"]; ["HGET"; "hh"; "f"]]%string = [FInt 1; FInt 1; b "2"].
+Proof. exact hset_fresh_fixed_history. Qed.
 
 Theorem c03_hdel_spec :
   forall fs h k h' k', NoDup (map fst h) -> hdel_loop h fs k = (h', k') ->
   (forall f, alookup f h' = if bmem f fs then None else alookup f h) /\ k' - k = len h - len h'.
 Proof. exact hdel_loop_spec. Qed.
 
-(** HINCRBY past the i64 range: unchecked addition, the server process dies (F-06e) *)
-Theorem c03_hincrby_overflow_refuted :
-  forall h f inc, hincrby_overflows h f inc = true -> e_hincrby f inc (Some (VHash h)) = (PANIC, Keep).
-Proof. exact hincrby_overflow_panics. Qed.
-Example c03_hincrby_refuted_history :
-  replies [["HSET"; "h"; "n"; "9223372036854775807"]; ["HINCRBY"; "h"; "n"; "1"]]%string = [FInt 1; PANIC].
-Proof. exact hincrby_refuted_history. Qed.
+(** HINCRBY: inside the i64 range the sum is answered, stored as decimal text and reads back
+    as that integer, other fields untouched; past the range the command is refused and
+    nothing changes (c5f1b6a) *)
+Theorem c03_hincrby_in_range :
+  forall h f inc v c,
+  alookup f h = Some v -> parse_i64 v = Some c -> in_i64 (c + inc) = true ->
+  exists h', e_hincrby f inc (Some (VHash h)) = (r_int (c + inc), Put (VHash h')) /\
+             (exists v', alookup f h' = Some v' /\ parse_i64 v' = Some (c + inc)) /\
+             forall g, g <> f -> alookup g h' = alookup g h.
+Proof. exact hincrby_in_range. Qed.
+Theorem c03_hincrby_overflow_refused :
+  forall h f inc, hincrby_overflows h f inc = true -> e_hincrby f inc (Some (VHash h)) = (r_err, Keep).
+Proof. exact hincrby_overflow_refused. Qed.
+Example c03_hincrby_fixed_history :
+  replies [["HSET"; "h"; "n"; "9223372036854775807"]; ["HINCRBY"; "h"; "n"; "1"]; ["HGET"; "h"; "n"];
+           ["HINCRBY"; "h"; "n"; "-1"]]%string
+  = [FInt 1; r_err; b "9223372036854775807"; FInt 9223372036854775806].
+Proof. exact hincrby_fixed_history. Qed.
 
-(** ---------------------------------------------------------------- panics (shared with C06) *)
+(** ---------------------------------------------------------------- no panic (shared with C06) *)
 
-(** Of the 31 commands only LREM, SRANDMEMBER and HINCRBY can reach a panicking operation ... *)
-Theorem c03_panic_only_three_commands :
+(** Every Rust operation of this family that can panic (unchecked +, unary -, as-casts of
+    negative values, Vec::with_capacity, slice indexing) is a model operation with the
+    distinguished outcome PANIC.  No command, database, argument list or oracle reaches it. *)
+Theorem c03_no_panic :
   forall now d name parts oracle r d',
-  exec_lists now d name parts oracle = Some (r, d') -> panics r = true ->
-  name = bs "LREM" \/ name = bs "SRANDMEMBER" \/ name = bs "HINCRBY".
-Proof. exact exec_lists_panic_names. Qed.
-(** ... and exactly on the inputs of the three classes. *)
-Theorem c03_lrem_panics_iff :
-  forall c x cur, panics (fst (e_lrem c x cur)) = true <-> (exists l, cur = Some (VList l)) /\ c = isize_min.
-Proof. exact lrem_panics_iff. Qed.
-Theorem c03_hincrby_panics_iff :
-  forall f inc cur, panics (fst (e_hincrby f inc cur)) = true <->
-  exists h, cur = Some (VHash h) /\ hincrby_overflows h f inc = true.
-Proof. exact hincrby_panics_iff. Qed.
-Theorem c03_srandmember_panics_iff :
-  forall count oracle cur, panics (fst (e_srandmember count oracle cur)) = true <->
-  exists s n, cur = Some (VSet s) /\ s <> [] /\ count = Some n /\ n < 0 /\ srand_neg_ok n = false.
-Proof. exact srandmember_panics_iff. Qed.
+  exec_lists now d name parts oracle = Some (r, d') -> panics r = false.
+Proof. exact exec_lists_no_panic. Qed.
